@@ -129,3 +129,13 @@ package tchannel
 //@   label expiry-is-reported-as-timeout
 //@   ensures err != nil && ctxerr(ctx) == context.DeadlineExceeded ==> err == ErrTimeout
 //@   property C20
+
+// "a partial ... response is never reported as success": the reader loop drops
+// a frame it cannot forward, so forwarding may fail only when the call is over
+// anyway -- with the error of the call's own context (mapped by
+// GetContextError) or with the error latched in the exchange. No other refusal
+// (full queue, timer, ...) exists while the exchange is alive.
+//@ func (mex *messageExchange) forwardPeerFrame(frame *Frame) (err error)
+//@   label refused-only-with-the-calls-own-end
+//@   ensures err != nil ==> err == mex.errCh.err || (ctxerr(mex.ctx) != nil && (err == ErrTimeout || err == ErrRequestCancelled || err == ctxerr(mex.ctx)))
+//@   property C05
